@@ -384,3 +384,85 @@ def register(ex):
     X['_ZNSt8__detail15_List_node_base4swapERS0_S1_'] = x_list_swap
     X['_ZNSt8__detail15_List_node_base11_M_transferEPS0_S1_'] = x_list_transfer
     X['_ZNSt8__detail15_List_node_base10_M_reverseEv'] = x_list_reverse
+
+    # ---- libstdc++ std::unordered_* rehash policy (hashtable_c++0x.cc), max_load_factor == 1.0 (checked):
+    # _M_next_bkt(n): smallest prime >= n from the library's table (small sizes only), sets _M_next_resize;
+    # _M_need_rehash(n_bkt, n_elt, n_ins): {true, next_bkt(max(n_elt+n_ins, 2*n_bkt))} if n_elt+n_ins > n_bkt (or the
+    # first insertion into the single-bucket state grows to next_bkt(max(n_ins, 11) + 1))
+    I64T = IntT(64); I32T = IntT(32)
+    PRIMES = [2, 3, 5, 7, 11, 13, 17, 19, 23, 29, 31, 37, 41, 43, 47, 53, 59, 61, 67, 71, 73, 79, 83, 89, 97, 103, 109, 113, 127, 137, 139, 149, 157, 167, 179, 193, 199, 211, 227, 241, 257]
+    FAST = [2, 2, 2, 3, 5, 5, 7, 7, 11, 11, 11, 11, 13, 13]
+
+    def rp_check(st, this):
+        f = ex.load(st, I32T, this)
+        if f != 0x3f800000: raise Inconclusive('unordered container with max_load_factor != 1.0')
+
+    def rp_next(st, this, n):
+        n = conc_len(ex, st, n, 'bucket count')
+        if n < len(FAST):
+            if n == 0: return 1
+            r = FAST[n]
+        else:
+            r = next((q for q in PRIMES if q >= n), None)
+            if r is None: raise Inconclusive('unordered container with more than %d buckets' % PRIMES[-1])
+        ex.store(st, I64T, r, ex.padd(this, 8))   # _M_next_resize = floor(r * 1.0)
+        return r
+
+    def x_rp_next_bkt(st, a, nm):
+        rp_check(st, a[0]); return rp_next(st, a[0], a[1])
+
+    def x_rp_need_rehash(st, a, nm):
+        this = a[0]; rp_check(st, this)
+        n_bkt = conc_len(ex, st, a[1], 'bucket count'); n_elt = conc_len(ex, st, a[2], 'element count'); n_ins = conc_len(ex, st, a[3], 'insert count')
+        nxt = ex.load(st, I64T, ex.padd(this, 8))
+        if is_sym(nxt) or nxt is None: raise Inconclusive('symbolic rehash policy state')
+        if n_elt + n_ins > nxt:
+            min_bkts = max(n_elt + n_ins, 11 if nxt == 0 else 0)   # growth factor 2 applies to the bucket count below
+            if min_bkts >= n_bkt: return [1, rp_next(st, this, max(min_bkts + 1, n_bkt * 2))]
+            ex.store(st, I64T, n_bkt, ex.padd(this, 8)); return [0, 0]
+        return [0, 0]
+    X['_ZNKSt8__detail20_Prime_rehash_policy11_M_next_bktEm'] = x_rp_next_bkt
+    X['_ZNKSt8__detail20_Prime_rehash_policy14_M_need_rehashEmmm'] = x_rp_need_rehash
+
+    # ---- std::locale as an opaque handle (default ctor / copy ctor / dtor only); every use of a locale is still unmodelled
+    def x_locale_ctor(st, a, nm): ex.store(st, P8, NULL, a[0])
+    def x_locale_copy(st, a, nm): ex.store(st, P8, ex.load(st, P8, a[1]), a[0])
+    X['_ZNSt6localeC1Ev'] = x_locale_ctor; X['_ZNSt6localeC2Ev'] = x_locale_ctor
+    X['_ZNSt6localeC1ERKS_'] = x_locale_copy; X['_ZNSt6localeC2ERKS_'] = x_locale_copy
+    X['_ZNSt6localeD1Ev'] = lambda st, a, nm: None; X['_ZNSt6localeD2Ev'] = lambda st, a, nm: None
+
+    # ---- wide-character libc primitives used by std::char_traits<wchar_t> (wchar_t = 32 bit)
+    I32W = IntT(32)
+    def x_wmemcpy(st, a, nm):
+        n = conc_len(ex, st, a[2], nm)
+        mem_copy(ex, st, a[0], a[1], n * 4, nm != 'wmemcpy'); return a[0]
+    X['wmemcpy'] = x_wmemcpy; X['wmemmove'] = x_wmemcpy
+
+    def x_wmemset(st, a, nm):
+        n = conc_len(ex, st, a[2], nm); p = a[0] if isinstance(a[0], Ptr) else ex.i2p(a[0])
+        for i in range(n): ex.store(st, I32W, a[1], ex.padd(p, 4 * i))
+        return a[0]
+    X['wmemset'] = x_wmemset
+
+    def x_wcslen(st, a, nm):
+        p = a[0] if isinstance(a[0], Ptr) else ex.i2p(a[0])
+        for i in range(1 << 16):
+            c = ex.load(st, I32W, ex.padd(p, 4 * i))
+            if c is None: ex.ub(st, 'wcslen reads uninitialised memory')
+            if is_sym(c): raise Inconclusive('wcslen over symbolic characters')
+            if c == 0: return i
+        raise Inconclusive('wcslen: no terminator')
+    X['wcslen'] = x_wcslen
+
+    def x_wmemcmp(st, a, nm):
+        n = conc_len(ex, st, a[2], nm)
+        pa = a[0] if isinstance(a[0], Ptr) else ex.i2p(a[0]); pb = a[1] if isinstance(a[1], Ptr) else ex.i2p(a[1])
+        r = z3.BitVecVal(0, 32)
+        for i in range(n - 1, -1, -1):
+            x = ex.load(st, I32W, ex.padd(pa, 4 * i)); y = ex.load(st, I32W, ex.padd(pb, 4 * i))
+            if x is None or y is None: ex.ub(st, 'wmemcmp reads uninitialised memory')
+            xi, yi = bv(x, 32), bv(y, 32)   # wchar_t is signed int on this target
+            r = z3.If(xi == yi, r, z3.If(xi < yi, z3.BitVecVal(mask(-1, 32), 32), z3.BitVecVal(1, 32)))
+        r = simp(r)
+        return r.as_long() if z3.is_bv_value(r) else r
+    X['wmemcmp'] = x_wmemcmp
